@@ -129,6 +129,21 @@ def mapper_src(m):
 
 def class_src(c, suffix="", fast=False):
     bases = "Structure" + (", FastSerializable" if fast else "")
+    k = c.get("split")
+    if k:
+        # the same declaration written as a base class holding the first k fields and a subclass holding the
+        # rest (and the class attributes): typedpy sees the same fields, required list and mapper
+        base = {"name": c["name"] + "Base", "fields": c["fields"][:k]}
+        names = [fd["name"] for fd in base["fields"]]
+        if c.get("required") is not None:
+            base["required"] = [r for r in c["required"] if r in names]
+        derived = dict(c)
+        derived["split"] = None
+        derived["fields"] = c["fields"][k:]
+        if c.get("required") is not None:
+            derived["required"] = [r for r in c["required"] if r not in names]
+        return class_src(base, suffix, fast) + "\n" + class_src(derived, suffix, fast).replace(
+            "(%s):" % bases, "(%sBase%s):" % (c["name"], suffix), 1)
     lines = ["class %s%s(%s):" % (c["name"], suffix, bases)]
     for fd in c["fields"]:
         src = tf_src(fd["ty"], suffix)
